@@ -74,6 +74,9 @@ VARIABLES stk, fr, ip, code, pc, inst, marks, phase, fresh, saved, last,
 vars == <<stk, fr, ip, code, pc, inst, marks, phase, fresh, saved, last, iid>>
 
 NoMark == [st |-> "none"]
+\* marks is a function on the mark identities seen so far (the trace specification extends its domain)
+MarkOf(m) == IF m \in DOMAIN marks THEN marks[m] ELSE NoMark
+SetMark(m, r) == [x \in (DOMAIN marks) \cup {m} |-> IF x = m THEN r ELSE marks[x]]
 Top  == IF fr = << >> THEN 0 ELSE fr[Len(fr)].sp
 SLen == Len(stk)
 Prefix(s, n) == SubSeq(s, 1, n)
@@ -82,6 +85,8 @@ Front(s) == SubSeq(s, 1, Len(s) - 1)
 RECURSIVE News(_, _)
 News(k, f) == IF k = 0 THEN << >> ELSE <<(IF Ghost THEN f ELSE 0)>> \o News(k - 1, f + 1)
 Min2(a, b) == IF a < b THEN a ELSE b
+\* ghost copy of a caller's operands (model checking only; a trace shows lengths, not values)
+Keep(s) == IF Ghost THEN s ELSE << >>
 Frame(sp, rip, rcode, hnd, mk) == [sp |-> sp, rip |-> rip, rcode |-> rcode, hnd |-> hnd, mk |-> mk]
 
 -----------------------------------------------------------------------------
@@ -119,8 +124,10 @@ NArgs(op, pl, n1p, n2p) == IF op \in FusedRead THEN n2p ELSE IF op \in GlobalCal
 CalleePops(op) == IF op \in StackCallee THEN 1 ELSE 0
 FusedPush(op)  == IF op \in FusedRead THEN 1 ELSE 0
 \* return address stored in the frame of a closure call
-RetIp(op, i) == CASE op \in {"FUNC", "FUNCNOARITY"} -> i + 1
-                  [] op \in FusedRead -> i + 3
+\* (a callee taken from the operand stack has no pseudo instruction behind the call: i + 1; UNBOXCALL /
+\* UNBOXTAIL advance by 2 before they call)
+RetIp(op, i) == CASE op \in {"FUNC", "FUNCNOARITY", "TAILCALL", "TAILCALLNOARITY"} -> i + 1
+                  [] op \in FusedRead \cup {"UNBOXCALL", "UNBOXTAIL"} -> i + 3
                   [] OTHER -> i + 2
 \* address after a call that completed without a frame (primitive / builtin callee)
 AfterCallIp(op, i) == RetIp(op, i)
@@ -173,7 +180,7 @@ CallClosure(extra, n, nsl, rip, ncode) ==
             ELSE Prefix(stk, Min2(nsl - 1, base + n)) \o News(1, fresh)
   /\ fresh' = fresh + 1
   /\ fr' = Append(fr, Frame(base, rip, code, FALSE, 0))
-  /\ saved' = Append(saved, Prefix(stk, base))
+  /\ saved' = Append(saved, Keep(Prefix(stk, base)))
   /\ ip' = 0 /\ code' = ncode /\ pc' = pc + 1 /\ last' = "CallClosure"
   /\ UNCHANGED <<inst, marks, phase, iid>>
 
@@ -227,7 +234,7 @@ EnterNested(k, ncode) ==
   /\ inst' = Append(inst, [ip |-> ip, code |-> code, pc |-> pc, base |-> Len(fr), iid |-> iid[1], cbase |-> iid[3]])
   /\ iid' = <<iid[2], iid[2] + 1, Len(fr)>>
   /\ fr' = Append(fr, Frame(SLen, ip, code, FALSE, 0))
-  /\ saved' = Append(saved, stk)
+  /\ saved' = Append(saved, Keep(stk))
   /\ stk' = stk \o News(k, fresh) /\ fresh' = fresh + k
   /\ ip' = 0 /\ code' = ncode /\ pc' = 1 /\ last' = "EnterNested"
   /\ UNCHANGED <<marks, phase>>
@@ -245,10 +252,10 @@ Leave == LeaveTo("run")
 \* that carries the mark (the frame's base is the stack top, the continuation is its one local)
 Capture(m, rip, ncode) ==
   /\ phase = "run"
-  /\ marks' = [marks EXCEPT ![m] = [st |-> "open", fr |-> fr, stk |-> stk, sv |-> saved, ip |-> rip - 1, code |-> code,
-                                    pc |-> pc, iid |-> iid[1]]]
+  /\ marks' = SetMark(m, [st |-> "open", fr |-> fr, stk |-> stk, sv |-> saved, ip |-> rip - 1, code |-> code,
+                                    pc |-> pc, iid |-> iid[1]])
   /\ fr' = Append(fr, Frame(SLen, rip, code, FALSE, m))
-  /\ saved' = Append(saved, stk)
+  /\ saved' = Append(saved, Keep(stk))
   /\ stk' = stk \o News(1, fresh) /\ fresh' = fresh + 1
   /\ ip' = 0 /\ code' = ncode /\ pc' = pc + 1 /\ last' = "Capture"
   /\ UNCHANGED <<inst, phase, iid>>
@@ -256,7 +263,7 @@ Capture(m, rip, ncode) ==
 \* a continuation is applied to one value: frames, operands, registers are those captured; the value
 \* is the result of the call/cc expression
 Invoke(m) ==
-  /\ phase = "run" /\ marks[m].st # "none"
+  /\ phase = "run" /\ MarkOf(m).st # "none"
   \* a continuation belongs to the interpreter instalment that captured it: the frames it restores are
   \* frames of that instalment's Rust activation.  Re-instating it from another instalment (out of or
   \* into a callback of a builtin) is the named deviation "invoke_across_instalments"
@@ -270,15 +277,17 @@ Invoke(m) ==
 HandlerFrame(rip, ncode) ==
   /\ phase = "run"
   /\ fr' = Append(fr, Frame(SLen, rip, code, TRUE, 0))
-  /\ saved' = Append(saved, stk)
+  /\ saved' = Append(saved, Keep(stk))
   /\ ip' = 0 /\ code' = ncode /\ pc' = pc + 1 /\ last' = "HandlerFrame"
   /\ UNCHANGED <<stk, inst, marks, phase, fresh, iid>>
 
-\* any instruction may fail: vm() returns the error to the unwinder of its instalment
-Raise ==
-  /\ phase = "run"
+\* any instruction may fail, after it consumed k of its operands: vm() returns the error to the unwinder
+\* of its instalment
+Raise(k) ==
+  /\ phase = "run" /\ SLen - k >= Top
+  /\ stk' = Prefix(stk, SLen - k)
   /\ phase' = "raised" /\ last' = "Raise"
-  /\ UNCHANGED <<stk, fr, ip, code, pc, inst, marks, fresh, saved, iid>>
+  /\ UNCHANGED <<fr, ip, code, pc, inst, marks, fresh, saved, iid>>
 
 \* frames the unwinder may pop: pc counts the frames of the current instalment
 Unwindable == Min2(pc, Len(fr))
@@ -300,20 +309,20 @@ Unwind(ncode) ==
 
 \* no handler among them: the frames of the instalment are dropped and the error is handed to the Rust
 \* caller (the engine clears the operand stack at depth 0; a nested instalment leaves it to its caller)
-UnwindAllBody ==
+UnwindAllBody(s) ==
   /\ fr' = Prefix(fr, Len(fr) - Unwindable) /\ saved' = Prefix(saved, Len(fr) - Unwindable)
-  /\ stk' = IF inst = << >> THEN << >> ELSE stk
+  /\ stk' = IF inst = << >> THEN << >> ELSE s
   /\ pc' = pc - Unwindable /\ phase' = "failed" /\ last' = "UnwindAll"
   /\ UNCHANGED <<ip, code, inst, marks, fresh, iid>>
 UnwindAll ==
   /\ phase = "raised" /\ HandlerIdx = 0
   /\ ~("nested_unwind_pops_outer" \in Defects /\ inst # << >> /\ Len(fr) > Unwindable)
-  /\ UnwindAllBody
+  /\ UnwindAllBody(stk)
 \* an instruction fails and no frame of the instalment carries a handler (Raise, then UnwindAll, as one step)
-RaiseUnhandled ==
-  /\ phase = "run" /\ HandlerIdx = 0
+RaiseUnhandled(k) ==
+  /\ phase = "run" /\ HandlerIdx = 0 /\ SLen - k >= Top
   /\ ~("nested_unwind_pops_outer" \in Defects /\ inst # << >> /\ Len(fr) > Unwindable)
-  /\ UnwindAllBody
+  /\ UnwindAllBody(Prefix(stk, SLen - k))
 
 \* AS THE PINNED CODE DOES IT (named deviation): in a nested instalment the loop pops a frame first and
 \* only then tests `pop_count == 0`; the frame it popped belongs to the caller of the builtin, and the
@@ -350,7 +359,7 @@ Next ==
         marks[m].st = "none" /\ Len(fr) < MaxFrames /\ SLen < MaxStack /\ Capture(m, rip, c)
   \/ \E m \in 1..NMarks : SLen < MaxStack + 1 /\ marks[m].st # "none" /\ Invoke(m)
   \/ \E rip \in 1..MaxIp, c \in Code : Len(fr) < MaxFrames /\ HandlerFrame(rip, c)
-  \/ Raise
+  \/ \E k \in 0..2 : Raise(k)
   \/ \E c \in Code : Unwind(c)
   \/ UnwindAll
   \/ UnwindAll_PopsOuter
